@@ -469,7 +469,7 @@ func (c *c15LookCtx) look() {
 }
 
 func (c *c15LookCtx) Done() <-chan struct{} { d := c.Context.Done(); c.look(); return d }
-func (c *c15LookCtx) Err() error           { e := c.Context.Err(); c.look(); return e }
+func (c *c15LookCtx) Err() error            { e := c.Context.Err(); c.look(); return e }
 
 // c15Cancel runs one request with a cancellation point and reports whether the call returned.
 func c15Cancel(c *Ctx, m *Model, cs c15CancelCase) {
@@ -688,6 +688,27 @@ func runC15(c *Ctx) error {
 	for _, n := range []int{50, 500, c.N(3000, 20000)} {
 		for _, q := range c15Deep(n) {
 			c15Total(c, c15FuzzCase{Root: root, Query: q, Vars: map[string]interface{}{}, Via: "exec"})
+		}
+	}
+	// every ill-forming mutation of C14's repertoire at every selection set of a fixed family of queries, as
+	// generated and with the mutated selection moved to the front (independent of the seed)
+	for b := 0; b < c.N(16, 60) && !c.Rep.ShouldStop(); b++ {
+		for site := 0; site < 14; site++ {
+			for _, kind := range c14Kinds {
+				for _, rotate := range []bool{false, true} {
+					br := NewRand(uint64(5000 + b))
+					q := genXQuery(br, 2, 0.3, 0)
+					if c14MutateAt(br, q, site, kind) == "" {
+						continue
+					}
+					if rotate {
+						c15RotateSels(q.Set, map[*xSelSet]bool{})
+						q.Text = q.render()
+					}
+					c.Rep.Count("systematic_mutation:" + kind)
+					c15Total(c, c15FuzzCase{Root: root, Query: q.Text, Vars: q.Vars, Via: "exec"})
+				}
+			}
 		}
 	}
 	for i := 0; i < c.N(1500, 60000) && !c.Rep.ShouldStop(); i++ {
